@@ -925,8 +925,8 @@ class C17(Property):
                   "model equals the layered reference: composition with c17_histories_partial / c17_results_partial); "
                   "non-vacuity: frameHist (18 commands: owner frame materialised by a write, a sibling handed the same "
                   "Properties object, instance reads before/after, with_properties, detached instance), quirkHist, markedHist.  "
-                  "Still assumed, not proved: lazy_is_unobservable takes the guard of BOTH histories (that inserted reads "
-                  "leave refGuard unchanged is not proved); MI classes mixing descriptors are outside (miGuard), as for model "
+                  "Since round p1 lazy_is_unobservable takes the guard of the history WITHOUT the inserted reads only "
+                  "(read_step_store: a read step leaves classes / ndesc / objs / initial unchanged; refGuard_insert_reads); MI classes mixing descriptors are outside (miGuard), as for model "
                   "A.  The runner still executes the mechanism model next to model A on every case (spec_agrees) "
                   "and its materialised-frame set after every command is compared with the keys of the real Properties.map")
     technique = "Lean 4 model + invariants + refinement to a layered-store specification; differential testing against /repo"
